@@ -95,8 +95,43 @@ class C03(Prop):
             raise Violation("%s: %r (recogniser: %s)" % (so.msg.decode(), text, RC_NAMES[so.c]),
                             key="tokens:%d" % so.code, detail={"case": {"kind": "text", "text": text}})
 
+    def cross_check_recogniser(self, lib, stats, text):
+        """the recogniser itself is checked against Python's strict json decoder on every generated text
+        (a disagreement is a defect of the harness, reported as such, never as a violation)"""
+        import json
+        if text[:3] == BOM or len(text) > 4000 or text.count(b"[") + text.count(b"{") > 900:
+            return   # (the nesting limit is cJSON's, not JSON's)
+        try:
+            u = text.decode("utf-8")
+        except UnicodeDecodeError:
+            return
+        rc = lib.classify(text)
+        if rc.cls == 3:
+            return
+        whole = rc.cls == RC_STRICT and text[rc.value_end:].strip(b" \t\r\n") == b""
+
+        def no_const(name):
+            raise ValueError("constant " + name)
+        try:
+            json.loads(u, parse_constant=no_const)
+            py = True
+        except RecursionError:
+            return
+        except ValueError:
+            py = False
+        low = text.lower()
+        if py and not whole:
+            # Python tolerates unpaired surrogate escapes; everything else it accepts must be strict here
+            if b"\\ud" in low:
+                return
+            raise RuntimeError("harness: dialect recogniser says %s (bad byte %d) for %r, Python's strict json accepts it" % (RC_NAMES[rc.cls], rc.bad_offset, text[:200]))
+        if whole and not py:
+            raise RuntimeError("harness: dialect recogniser says STRICT for %r, Python's strict json rejects it" % text[:200])
+        stats.cls("recogniser_agrees_with_python_json")
+
     def check_text(self, lib, stats, text, label):
         """the oracle proper: classify exactly what each entry point may see, demand the verdict"""
+        self.cross_check_recogniser(lib, stats, text)
         worst_bad = None
         for entry in (0, 1, 2, 3):
             if entry < 2:
